@@ -365,6 +365,63 @@ func c15(r *Report) {
 		r.Decide("flow", "(*M/marbl.bodyLogger).Close: delegates to the wrapped body", okCl, "return bl.body.Close()", "closing the wrapper does not close the body", cl.Pos())
 	})
 
+	r.Guard("C15.R5", "reading a snapshot does not change it", func() {
+		// the reader methods of MessageView only load the view's fields: no store to them and
+		// no field address handed to anything else (an option applied to the view itself makes
+		// one reader's choice - decoded or raw - stick for the next)
+		mvT := w.Named("messageview", "MessageView")
+		if mvT == nil {
+			r.Undecided("M/messageview.MessageView", "UNRESOLVED")
+			return
+		}
+		n := 0
+		for _, mn := range []string{"Reader", "HeaderReader", "BodyReader", "TrailerReader"} {
+			f := w.method(mvT, mn)
+			if f == nil || f.Blocks == nil {
+				continue
+			}
+			n++
+			r.Touch(f)
+			bad := ""
+			var pos token.Pos = f.Pos()
+			for _, in := range instrs(f) {
+				fa, ok := in.(*ssa.FieldAddr)
+				if !ok || fa.X != ssa.Value(f.Params[0]) || fa.Referrers() == nil {
+					continue
+				}
+				for _, u := range *fa.Referrers() {
+					switch x := u.(type) {
+					case *ssa.UnOp:
+						if x.Op == token.MUL {
+							continue
+						}
+					case *ssa.FieldAddr:
+						// nested field of a struct field: judged by its own uses
+						nested := true
+						if x.Referrers() != nil {
+							for _, uu := range *x.Referrers() {
+								if ld, isLd := uu.(*ssa.UnOp); !isLd || ld.Op != token.MUL {
+									nested = false
+								}
+							}
+						}
+						if nested {
+							continue
+						}
+					case *ssa.DebugRef:
+						continue
+					}
+					bad = fieldObj(fa).Name()
+					pos = u.Pos()
+				}
+			}
+			r.Decide("flow", "(*M/messageview.MessageView)."+mn+" only reads the view", bad == "", "every use of a field of the view is a load", "the reader stores to, or hands out the address of, the view's field "+bad+": what one reader chose (decoding) changes what the next reader of the same snapshot returns", pos)
+		}
+		if n < 2 {
+			r.Undecided("M/messageview.MessageView readers", "UNRESOLVED")
+		}
+	})
+
 	r.Guard("C15.R4", "an exchange marked skip-logging is recorded by no logger", func() {
 		contextFlagRules(r, "SkipLogging", "SkippingLogging")
 		for _, lt := range []struct{ pkg, typ string }{{"har", "Logger"}, {"martianlog", "Logger"}, {"marbl", "Modifier"}} {
